@@ -4,8 +4,12 @@
    here it is a HYPOTHESIS on the execution: [holds s t] says that fiber t
    holds the channel lock in state s (read off the shape of its stack),
    [excl s] that at most one fiber does, and [reach_excl] are the states
-   reachable through states that all satisfy [excl].  For all such states, any
-   number of fibers, any programs, any schedule, any size 2^k:
+   reachable through states that all satisfy [excl].  Everything is stated for
+   BOTH variants of the model (ol = false: the code in /repo with separate
+   sender / receiver waiter lists; ol = true: the original one-list protocol):
+   [reach_excl ol k progs] / [ireach_excl ol k progs] start from
+   [init_ol ol k progs].  For all such states, any number of fibers, any
+   programs, any schedule, any size 2^k:
 
      multichan_capacity_partial               0 <= high - low <= size, and the slot a
                                               send is about to write holds 0
@@ -26,6 +30,8 @@ Arguments tid_of_name : simpl never.
 Arguments c_scr : simpl never.
 Arguments c_buf : simpl never.
 Arguments bidx : simpl never.
+Arguments wait_list : simpl never.
+Arguments wake_list : simpl never.
 Arguments Z.add : simpl nomatch.
 Arguments Z.sub : simpl nomatch.
 Arguments Z.ltb : simpl nomatch.
@@ -67,10 +73,10 @@ Definition holds (s : st) (t : nat) : Prop :=
 Definition excl (s : st) : Prop := forall t u, holds s t -> holds s u -> t = u.
 
 (* states reachable through states that all satisfy excl *)
-Inductive reach_excl (k : nat) (progs : list (list mop)) : st -> Prop :=
-| re_init : reach_excl k progs (init k progs)
-| re_step s t : reach_excl k progs s -> status_of s t = SReady ->
-                excl (fst (step s t)) -> reach_excl k progs (fst (step s t)).
+Inductive reach_excl (ol : bool) (k : nat) (progs : list (list mop)) : st -> Prop :=
+| re_init : reach_excl ol k progs (init_ol ol k progs)
+| re_step s t : reach_excl ol k progs s -> status_of s t = SReady ->
+                excl (fst (step s t)) -> reach_excl ol k progs (fst (step s t)).
 
 (* the part of [holds] the proofs below use: the stack is exactly one client
    access on top of a critical-section continuation *)
@@ -97,19 +103,19 @@ Proof.
   destruct c; try discriminate; exact Hc.
 Qed.
 
-Lemma init_no_holder k progs t : ~ holds (init k progs) t.
+Lemma init_no_holder ol k progs t : ~ holds (init_ol ol k progs) t.
 Proof. unfold holds. cbn. auto. Qed.
 
-Lemma init_excl k progs : excl (init k progs).
-Proof. intros t u H. destruct (init_no_holder _ _ _ H). Qed.
+Lemma init_excl ol k progs : excl (init_ol ol k progs).
+Proof. intros t u H. destruct (init_no_holder _ _ _ _ H). Qed.
 
-Lemma reach_excl_reachable k progs s : reach_excl k progs s -> reachable M (init k progs) s.
+Lemma reach_excl_reachable ol k progs s : reach_excl ol k progs s -> reachable M (init_ol ol k progs) s.
 Proof.
   induction 1 as [|s t R IH St E]; [constructor|].
-  apply (reach_step M (init k progs) s t IH St).
+  apply (reach_step M (init_ol ol k progs) s t IH St).
 Qed.
 
-Lemma reach_excl_excl k progs s : reach_excl k progs s -> excl s.
+Lemma reach_excl_excl ol k progs s : reach_excl ol k progs s -> excl s.
 Proof. destruct 1; [apply init_excl | assumption]. Qed.
 
 (* ------------------------------------------------------------------ *)
@@ -136,27 +142,35 @@ Inductive kshaped : stack mc -> Prop :=
 | ks_coarse l c : forallb kfr l = true -> ccont c = true -> kshaped (l ++ [FC c])
 | ks_acq a p k : kshaped [CRead c_high; FC (MHigh a p k)].
 
+(* the cells of the two list heads (not ring cells) *)
+Definition lhead (c : nat) : Prop := c = c_waiters \/ c = c_rwaiters.
+
+Lemma lhead_wait ol a : lhead (wait_list ol a).
+Proof. unfold lhead, wait_list. destruct ol; [auto|]. destruct a; auto. Qed.
+Lemma lhead_wake ol a : lhead (wake_list ol a).
+Proof. unfold lhead, wake_list. destruct ol; [auto|]. destruct a; auto. Qed.
+
 Inductive shaped (t : nat) : stack mc -> Prop :=
 | sh_k S : kshaped S -> shaped t S
 | sh_low a hi p k : shaped t [CRead c_low; FC (MLow a hi p k)]
 | sh_sidx x p k : shaped t [CRead c_high; FC (MSIdx x p k)]
 | sh_sbuf i x p k : shaped t [CWrite (c_buf i) x; FC (MSBuf p k)]
 | sh_shigh2 p k : shaped t [CRead c_high; FC (MSHigh2 p k)]
-| sh_swk0 v p k : shaped t [CWrite c_high v; FC (MWk0 0 p k)]
+| sh_swk0 v c0 p k : lhead c0 -> shaped t [CWrite c_high v; FC (MWk0 c0 0 p k)]
 | sh_ridx p k : shaped t [CRead c_low; FC (MRIdx p k)]
 | sh_rbuf i p k : shaped t [CRead (c_buf i); FC (MRBuf i p k)]
 | sh_rclr i m p k : shaped t [CWrite (c_buf i) 0; FC (MRClr m p k)]
 | sh_rlow2 m p k : shaped t [CRead c_low; FC (MRLow2 m p k)]
-| sh_rwk0 v m p k : shaped t [CWrite c_low v; FC (MWk0 m p k)]
-| sh_wk1 r p k : shaped t [CRead c_waiters; FC (MWk1 r p k)]
-| sh_wk2 r p k : shaped t [CRead c_waiters; FC (MWk2 r p k)]
-| sh_wk3 r f p k : shaped t [CRead (c_scr f); FC (MWk3 r f p k)]
-| sh_wk4 r f v p k : shaped t [CWrite c_waiters v; FC (MWk4 r f p k)]
+| sh_rwk0 v c0 m p k : lhead c0 -> shaped t [CWrite c_low v; FC (MWk0 c0 m p k)]
+| sh_wk1 c0 r p k : lhead c0 -> shaped t [CRead c0; FC (MWk1 c0 r p k)]
+| sh_wk2 c0 r p k : lhead c0 -> shaped t [CRead c0; FC (MWk2 c0 r p k)]
+| sh_wk3 c0 r f p k : lhead c0 -> shaped t [CRead (c_scr f); FC (MWk3 c0 r f p k)]
+| sh_wk4 c0 r f v p k : lhead c0 -> shaped t [CWrite c0 v; FC (MWk4 r f p k)]
 | sh_wk5 r f p k : shaped t [CWrite (c_scr f) 0; FC (MWk5 r f p k)]
 | sh_wk6 r f p k : shaped t [FStWrite f ST_READY; FC (MWk6 r f p k)]
-| sh_wt1 a p k : shaped t [CRead c_waiters; FC (MWt1 a p k)]
+| sh_wt1 c0 a p k : shaped t [CRead c0; FC (MWt1 a p k)]
 | sh_wt2 a v p k : shaped t [CWrite (c_scr t) v; FC (MWt2 a p k)]
-| sh_wt3 a p k : shaped t [CWrite c_waiters (fname t); FC (MWt3 a p k)]
+| sh_wt3 c0 a p k : lhead c0 -> shaped t [CWrite c0 (fname t); FC (MWt3 a p k)]
 | sh_wt4 a p k : shaped t [FStWrite t ST_WAITING; FC (MWt4 a p k)].
 
 Definition nowait (m : kmem) : Prop := forall u, slot_wait m u = None.
@@ -181,9 +195,9 @@ Lemma kshaped_attempt a p k : kshaped (attempt a p k).
 Proof. apply (ks_coarse [LSub 0%nat]); reflexivity. Qed.
 
 (* the coarse continuations, when control returns to them *)
-Lemma ccont_ret size m t c v :
+Lemma ccont_ret ol size m t c v :
   ccont c = true ->
-  let '(m1, e1, s1) := cret size m t c v in kshaped s1 /\ m1 = m.
+  let '(m1, e1, s1) := cret ol size m t c v in kshaped s1 /\ m1 = m.
 Proof.
   destruct c; cbn; try discriminate; intros _; split; auto.
   - apply kshaped_start.
@@ -239,13 +253,13 @@ Proof.
     destruct (sleep mc m2 t (l ++ [FC c])) as [[m3 e3] s3]. exact K.
 Qed.
 
-Lemma ret_k size m0 t l c : forall m v,
+Lemma ret_k ol size m0 t l c : forall m v,
   forallb kfr l = true -> ccont c = true -> cell m = cell m0 -> nowait m ->
-  kpost m0 (ret mc (cret size) m t v (l ++ [FC c])).
+  kpost m0 (ret mc (cret ol size) m t v (l ++ [FC c])).
 Proof.
   induction l as [|f l IH]; intros m v Hl Hc Hm Hw.
-  - cbn. pose proof (ccont_ret size m t c v Hc) as R.
-    destruct (cret size m t c v) as [[m1 e1] s1]. destruct R as [R ->].
+  - cbn. pose proof (ccont_ret ol size m t c v Hc) as R.
+    destruct (cret ol size m t c v) as [[m1 e1] s1]. destruct R as [R ->].
     rewrite app_nil_r. split; [exact R | split; assumption].
   - cbn [forallb] in Hl. apply andb_prop in Hl. destruct Hl as [Hf Hl].
     destruct f; try discriminate; cbn [app ret];
@@ -265,12 +279,12 @@ Proof.
 Qed.
 
 (* pieces used to close kernel-step goals *)
-Ltac k_ret size m0 l c Hl Hc :=
+Ltac k_ret ol size m0 l c Hl Hc :=
   match goal with
   | |- context [ret mc ?cr ?mm ?t ?v (l ++ [FC c])] =>
       let K := fresh "K" in
       assert (K : kpost m0 (ret mc cr mm t v (l ++ [FC c])));
-      [ apply (ret_k size m0 t l c mm v Hl Hc);
+      [ apply (ret_k ol size m0 t l c mm v Hl Hc);
         [ try reflexivity; try (rewrite wake_cell; reflexivity)
         | try assumption; try (apply wake_nowait; assumption) ]
       | destruct (ret mc cr mm t v (l ++ [FC c])) as [[? ?] ?]; exact K ]
@@ -294,23 +308,23 @@ Ltac k_rs m0 l c :=
       destruct (run_slots mc mm t (l ++ [FC c])) as [[? ?] ?]; exact K
   end.
 
-Lemma ksched_k size m0 m t q cnt wc f e l c :
+Lemma ksched_k ol size m0 m t q cnt wc f e l c :
   forallb kfr l = true -> ccont c = true -> cell m = cell m0 -> nowait m ->
-  kpost m0 (ksched mc (cret size) m t q cnt wc f e (l ++ [FC c])).
+  kpost m0 (ksched mc (cret ol size) m t q cnt wc f e (l ++ [FC c])).
 Proof.
   intros Hl Hc Hm Hw. unfold ksched, kloop.
   destruct (wc + 1 <? cnt).
   - split; [apply (ks_coarse (KHead q cnt (wc + 1) :: l)); [exact Hl | exact Hc]|].
     split; [rewrite wake_cell; exact Hm | apply wake_nowait; exact Hw].
-  - assert (K : kpost m0 (ret mc (cret size) (wake m f) t (wc + 1) (l ++ [FC c]))).
+  - assert (K : kpost m0 (ret mc (cret ol size) (wake m f) t (wc + 1) (l ++ [FC c]))).
     { apply ret_k; try assumption; [rewrite wake_cell; exact Hm | apply wake_nowait; exact Hw]. }
-    destruct (ret mc (cret size) (wake m f) t (wc + 1) (l ++ [FC c])) as [[? ?] ?]. exact K.
+    destruct (ret mc (cret ol size) (wake m f) t (wc + 1) (l ++ [FC c])) as [[? ?] ?]. exact K.
 Qed.
 
 (* one step of a fiber whose stack is kernel frames over a coarse continuation *)
-Lemma kstep_k size m t f l c :
+Lemma kstep_k ol size m t f l c :
   kfr f = true -> forallb kfr l = true -> ccont c = true -> nowait m ->
-  kpost m (kstepC size m t (f :: l ++ [FC c])).
+  kpost m (kstepC ol size m t (f :: l ++ [FC c])).
 Proof.
   intros Hf Hl Hc Hw.
   destruct f; try discriminate; unfold kstepC; cbn [kstep].
@@ -320,7 +334,7 @@ Proof.
               | |- kpost _ (match kloop _ _ _ _ with Some _ => _ | None => _ end) => unfold kloop
               | |- kpost _ (match (if ?b then _ else _) with Some _ => _ | None => _ end) => destruct b
               end.
-  all: try (k_ret size m l c Hl Hc).
+  all: try (k_ret ol size m l c Hl Hc).
   all: try (k_frames l c Hl Hc Hw).
   all: try (apply ksched_k; (assumption || reflexivity)).
   all: try (k_rs m l c).
@@ -328,12 +342,12 @@ Qed.
 
 Lemma binv_of_kstep s t :
   BInv s ->
-  (let '(m1, e1, s1) := kstepC (csize s) (mem s) t (stk s t) in
+  (let '(m1, e1, s1) := kstepC (onelist s) (csize s) (mem s) t (stk s t) in
    shaped t s1 /\ nowait m1) ->
   BInv (fst (step s t)).
 Proof.
   intros B H. unfold step.
-  destruct (kstepC (csize s) (mem s) t (stk s t)) as [[m1 e1] s1].
+  destruct (kstepC (onelist s) (csize s) (mem s) t (stk s t)) as [[m1 e1] s1].
   destruct H as [H1 H2]. constructor; cbn.
   - intros u. destruct (Nat.eq_dec u t) as [->|Hne].
     + rewrite upd_same. exact H1.
@@ -342,7 +356,7 @@ Proof.
   - apply (b_size s B).
 Qed.
 
-Lemma init_binv k progs : BInv (init k progs).
+Lemma init_binv ol k progs : BInv (init_ol ol k progs).
 Proof.
   constructor; cbn.
   - intros t. apply sh_k. apply (ks_coarse [Start]); reflexivity.
@@ -351,16 +365,16 @@ Proof.
 Qed.
 
 (* a step of a fiber outside the exact shapes *)
-Lemma kshaped_step size m t S :
+Lemma kshaped_step ol size m t S :
   kshaped S -> nowait m ->
-  (exists a p k, S = [CRead c_high; FC (MHigh a p k)]) \/ kpost m (kstepC size m t S).
+  (exists a p k, S = [CRead c_high; FC (MHigh a p k)]) \/ kpost m (kstepC ol size m t S).
 Proof.
   intros K Hw. destruct K as [|l c Hl Hc|a p k].
   - right. cbn. split; [constructor | split; [reflexivity | exact Hw]].
   - right. destruct l as [|f l].
     + cbn. split; [apply (ks_coarse [] c); [reflexivity | exact Hc] | split; [reflexivity | exact Hw]].
     + cbn [forallb] in Hl. apply andb_prop in Hl. destruct Hl as [Hf Hl].
-      apply (kstep_k size m t f l c Hf Hl Hc Hw).
+      apply (kstep_k ol size m t f l c Hf Hl Hc Hw).
   - left. eauto.
 Qed.
 
@@ -383,14 +397,14 @@ Proof.
                | |- context [if ?b then _ else _] => destruct b eqn:?
                | a : att |- _ => destruct a
                end; cbn.
-  2-35: (split; [ sh_exact | try exact Nw; try (intros u; cbn; try rewrite wake_slot_wait; apply Nw) ]).
-  - destruct (kshaped_step size (mem s) t S K Nw) as [(a & p & k & ->)|P].
+  2-35: (split; [ sh_exact; first [assumption | apply lhead_wait | apply lhead_wake] | try exact Nw; try (intros u; cbn; try rewrite wake_slot_wait; apply Nw) ]).
+  - destruct (kshaped_step (onelist s) size (mem s) t S K Nw) as [(a & p & k & ->)|P].
     + cbn. split; [apply sh_low | exact Nw].
-    + destruct (kstepC size (mem s) t S) as [[m1 e1] s1]. destruct P as (P1 & _ & P3).
+    + destruct (kstepC (onelist s) size (mem s) t S) as [[m1 e1] s1]. destruct P as (P1 & _ & P3).
       split; [apply sh_k; exact P1 | exact P3].
 Qed.
 
-Lemma reach_excl_binv k progs s : reach_excl k progs s -> BInv s.
+Lemma reach_excl_binv ol k progs s : reach_excl ol k progs s -> BInv s.
 Proof.
   induction 1 as [|s t R IH St E]; [apply init_binv | apply binv_step; exact IH].
 Qed.
@@ -407,7 +421,7 @@ Inductive ghost_ev := GNone | GMsg (x : Z) | GSend | GRecv (r : Z).
 Definition gev (S : stack mc) : ghost_ev :=
   match S with
   | [CWrite c x; FC (MSBuf _ _)] => GMsg x
-  | [CWrite c v; FC (MWk0 r _ _)] => if Nat.eqb c c_high then GSend else GRecv r
+  | [CWrite c v; FC (MWk0 _ r _ _)] => if Nat.eqb c c_high then GSend else GRecv r
   | _ => GNone
   end.
 
@@ -427,25 +441,25 @@ Definition istep (x : ist) (t : nat) : ist :=
 Lemma istep_erase x t : base (istep x t) = fst (step (base x) t).
 Proof. unfold istep. destruct (gev (stk (base x) t)); reflexivity. Qed.
 
-Definition iinit (k : nat) (progs : list (list mop)) : ist :=
-  {| base := init k progs; pmsg := fun _ => 0; slog := []; rlog := [] |}.
+Definition iinit (ol : bool) (k : nat) (progs : list (list mop)) : ist :=
+  {| base := init_ol ol k progs; pmsg := fun _ => 0; slog := []; rlog := [] |}.
 
-Inductive ireach_excl (k : nat) (progs : list (list mop)) : ist -> Prop :=
-| ire_init : ireach_excl k progs (iinit k progs)
-| ire_step x t : ireach_excl k progs x -> status_of (base x) t = SReady ->
-                 excl (base (istep x t)) -> ireach_excl k progs (istep x t).
+Inductive ireach_excl (ol : bool) (k : nat) (progs : list (list mop)) : ist -> Prop :=
+| ire_init : ireach_excl ol k progs (iinit ol k progs)
+| ire_step x t : ireach_excl ol k progs x -> status_of (base x) t = SReady ->
+                 excl (base (istep x t)) -> ireach_excl ol k progs (istep x t).
 
-Lemma ireach_excl_sound k progs x : ireach_excl k progs x -> reach_excl k progs (base x).
+Lemma ireach_excl_sound ol k progs x : ireach_excl ol k progs x -> reach_excl ol k progs (base x).
 Proof.
   induction 1 as [|x t R IH St E]; [constructor|].
   rewrite istep_erase in *. constructor; assumption.
 Qed.
 
-Lemma ireach_excl_complete k progs s :
-  reach_excl k progs s -> exists x, ireach_excl k progs x /\ base x = s.
+Lemma ireach_excl_complete ol k progs s :
+  reach_excl ol k progs s -> exists x, ireach_excl ol k progs x /\ base x = s.
 Proof.
   induction 1 as [|s t R (x & Rx & Ex) St E].
-  - exists (iinit k progs). split; [constructor | reflexivity].
+  - exists (iinit ol k progs). split; [constructor | reflexivity].
   - exists (istep x t). split.
     + constructor; [exact Rx | rewrite Ex; exact St | rewrite istep_erase, Ex; exact E].
     + rewrite istep_erase, Ex. reflexivity.
@@ -453,7 +467,7 @@ Qed.
 
 (* ------------------------------------------------------------------ *)
 (* cells and slots *)
-Ltac cells := unfold c_scr, c_waiters, c_buf, c_high, c_low in *; lia.
+Ltac cells := unfold c_scr, c_waiters, c_rwaiters, c_buf, c_high, c_low in *; lia.
 
 Lemma buf_high i : c_buf i <> c_high. Proof. cells. Qed.
 Lemma buf_low i : c_buf i <> c_low. Proof. cells. Qed.
@@ -594,7 +608,7 @@ Definition cs_inv2 (C : nat -> Z) (size : Z) (sl : list Z) (pm : Z) (f : frame m
       match f with CWrite a _ => a = c_buf (bidx size hi) | _ => True end
   | MSHigh2 _ _ =>
       Bf C size lo hi sl true false /\ hi - lo < size /\ C (c_buf (bidx size hi)) = pm
-  | MWk0 r _ _ =>
+  | MWk0 _ r _ _ =>
       match f with
       | CWrite a v =>
           if Nat.eqb a c_high
@@ -637,7 +651,7 @@ Record GInv (x : ist) : Prop := {
         Bf (Cx x) (sz x) (Cx x c_low) (Cx x c_high) (slog x) false false
 }.
 
-Lemma init_ginv k progs : GInv (iinit k progs).
+Lemma init_ginv ol k progs : GInv (iinit ol k progs).
 Proof.
   constructor.
   - constructor; cbn; try reflexivity. unfold Cx, sz. cbn.
@@ -691,9 +705,9 @@ Lemma g_step_k x t :
 Proof.
   intros B G K Hn E'.
   unfold istep in *. rewrite (kshaped_gev _ K) in *. cbn [base] in E'.
-  destruct (kshaped_step (csize (base x)) (mem (base x)) t _ K (b_nowait _ B)) as [(a & p & k & Eq)|P].
+  destruct (kshaped_step (onelist (base x)) (csize (base x)) (mem (base x)) t _ K (b_nowait _ B)) as [(a & p & k & Eq)|P].
   { rewrite Eq in Hn. discriminate. }
-  unfold step in *. destruct (kstepC (csize (base x)) (mem (base x)) t (stk (base x) t)) as [[m1 e1] s1].
+  unfold step in *. destruct (kstepC (onelist (base x)) (csize (base x)) (mem (base x)) t (stk (base x) t)) as [[m1 e1] s1].
   cbn [fst] in *. destruct P as (K1 & Cm & _).
   constructor; unfold cs_inv, Cx, sz; cbn [base mem stk csize pmsg slog rlog].
   - rewrite Cm. apply (g_cn x G).
@@ -709,7 +723,9 @@ Proof.
     specialize (Hall u). rewrite upd_other in Hall by exact Hu. exact Hall.
 Qed.
 
-Ltac ne_cells := unfold c_scr, c_waiters, c_buf, c_high, c_low; lia.
+Ltac ne_cells :=
+  try match goal with H : lhead _ |- _ => destruct H as [-> | ->] end;
+  unfold c_scr, c_waiters, c_rwaiters, c_buf, c_high, c_low; lia.
 
 Lemma Cn_frame C C' size sl rl :
   C' c_high = C c_high -> C' c_low = C c_low -> Cn C size sl rl -> Cn C' size sl rl.
@@ -818,11 +834,11 @@ Proof.
       first [assumption | (intros j; apply upd_other; ne_cells) | (unfold Zlen in *; lia)].
 Qed.
 
-Theorem ireach_excl_ginv k progs x : ireach_excl k progs x -> GInv x.
+Theorem ireach_excl_ginv ol k progs x : ireach_excl ol k progs x -> GInv x.
 Proof.
   induction 1 as [|x t R IH St E]; [apply init_ginv|].
-  pose proof (ireach_excl_sound _ _ _ R) as Rs.
-  apply ginv_step; [exact (reach_excl_binv _ _ _ Rs) | exact IH | exact (reach_excl_excl _ _ _ Rs) | exact E].
+  pose proof (ireach_excl_sound _ _ _ _ R) as Rs.
+  apply ginv_step; [exact (reach_excl_binv _ _ _ _ Rs) | exact IH | exact (reach_excl_excl _ _ _ _ Rs) | exact E].
 Qed.
 
 (* ------------------------------------------------------------------ *)
@@ -834,20 +850,20 @@ Definition prefix (l1 l2 : list Z) : Prop := exists r, l2 = l1 ++ r.
    the channel never holds more than size messages, and the slot a send
    writes (slot high mod size) is free (holds 0) when it is written.
    FULL statement (not proved here): the same for every state in
-   [reachable M (init k progs)], i.e. with [reach_excl] replaced by plain
+   [reachable M (init_ol ol k progs)], i.e. with [reach_excl] replaced by plain
    reachability; what is missing is exactly C03 for this client:
-   forall s, reachable M (init k progs) s -> excl s. *)
+   forall s, reachable M (init_ol ol k progs) s -> excl s. *)
 Theorem multichan_capacity_partial :
-  forall (k : nat) (progs : list (list mop)) (s : st),
-    reach_excl k progs s ->
+  forall (ol : bool) (k : nat) (progs : list (list mop)) (s : st),
+    reach_excl ol k progs s ->
     0 <= cell (mem s) c_high - cell (mem s) c_low <= csize s /\
     forall t c x p kk,
       stk s t = [CWrite c x; FC (MSBuf p kk)] ->
       c = c_buf (bidx (csize s) (cell (mem s) c_high)) /\ cell (mem s) c = 0.
 Proof.
-  intros k progs s R.
-  destruct (ireach_excl_complete _ _ _ R) as (x & Rx & <-).
-  pose proof (ireach_excl_ginv _ _ _ Rx) as G.
+  intros ol k progs s R.
+  destruct (ireach_excl_complete _ _ _ _ R) as (x & Rx & <-).
+  pose proof (ireach_excl_ginv _ _ _ _ Rx) as G.
   pose proof (g_cn x G) as [Chi Clo Cpre Cord]. unfold Cx, sz in *.
   split; [lia|].
   intros t c v p kk Hs.
@@ -859,13 +875,13 @@ Qed.
 
 (* the form asked for: the top frame is the buffer write of slot [bidx size hi] *)
 Corollary multichan_slot_free_partial :
-  forall (k : nat) (progs : list (list mop)) (s : st) t hi x p kk,
-    reach_excl k progs s ->
+  forall (ol : bool) (k : nat) (progs : list (list mop)) (s : st) t hi x p kk,
+    reach_excl ol k progs s ->
     stk s t = [CWrite (c_buf (bidx (csize s) hi)) x; FC (MSBuf p kk)] ->
     cell (mem s) (c_buf (bidx (csize s) hi)) = 0.
 Proof.
-  intros k progs s t hi x p kk R Hs.
-  destruct (multichan_capacity_partial k progs s R) as [_ H].
+  intros ol k progs s t hi x p kk R Hs.
+  destruct (multichan_capacity_partial ol k progs s R) as [_ H].
   destruct (H t _ x p kk Hs) as [_ Hz]. exact Hz.
 Qed.
 
@@ -877,14 +893,14 @@ Qed.
    FULL statement (not proved here): the same for [ireach] without the
    hypothesis [excl] on every visited state; missing: C03 for this client. *)
 Theorem multichan_exactly_once_in_order_partial :
-  forall (k : nat) (progs : list (list mop)) (x : ist),
-    ireach_excl k progs x ->
+  forall (ol : bool) (k : nat) (progs : list (list mop)) (x : ist),
+    ireach_excl ol k progs x ->
     prefix (rlog x) (slog x) /\
     cell (mem (base x)) c_high = Zlen (slog x) /\
     cell (mem (base x)) c_low = Zlen (rlog x).
 Proof.
-  intros k progs x R.
-  pose proof (g_cn x (ireach_excl_ginv _ _ _ R)) as [Chi Clo Cpre Cord]. unfold Cx in *.
+  intros ol k progs x R.
+  pose proof (g_cn x (ireach_excl_ginv _ _ _ _ R)) as [Chi Clo Cpre Cord]. unfold Cx in *.
   split; [|split; assumption].
   exists (skipn (length (rlog x)) (slog x)).
   pose proof (firstn_skipn (length (rlog x)) (slog x)) as F. rewrite <- Cpre in F.
@@ -893,13 +909,13 @@ Qed.
 
 (* every reach_excl state of the model is the erasure of an instrumented run *)
 Corollary multichan_exactly_once_in_order_states_partial :
-  forall (k : nat) (progs : list (list mop)) (s : st),
-    reach_excl k progs s ->
-    exists x, ireach_excl k progs x /\ base x = s /\ prefix (rlog x) (slog x).
+  forall (ol : bool) (k : nat) (progs : list (list mop)) (s : st),
+    reach_excl ol k progs s ->
+    exists x, ireach_excl ol k progs x /\ base x = s /\ prefix (rlog x) (slog x).
 Proof.
-  intros k progs s R. destruct (ireach_excl_complete _ _ _ R) as (x & Rx & Ex).
+  intros ol k progs s R. destruct (ireach_excl_complete _ _ _ _ R) as (x & Rx & Ex).
   exists x. split; [exact Rx | split; [exact Ex|]].
-  apply (multichan_exactly_once_in_order_partial k progs x Rx).
+  apply (multichan_exactly_once_in_order_partial ol k progs x Rx).
 Qed.
 
 (* ------------------------------------------------------------------ *)
@@ -940,13 +956,13 @@ Definition outside_idle (s : st) : Prop :=
 Lemma outside_idle_step s t : outside_idle s -> status_of s t = SReady -> outside_idle (fst (step s t)).
 Proof.
   intros O St u Hu. unfold step in *.
-  destruct (kstepC (csize s) (mem s) t (stk s t)) as [[m1 e1] s1]. cbn in *.
+  destruct (kstepC (onelist s) (csize s) (mem s) t (stk s t)) as [[m1 e1] s1]. cbn in *.
   assert (t < nthr s)%nat.
   { unfold status_of in St. destruct (Nat.ltb_spec t (nthr s)); [assumption | discriminate]. }
   rewrite upd_other by lia. apply O. exact Hu.
 Qed.
 
-Lemma reach_excl_outside k progs s : reach_excl k progs s -> outside_idle s.
+Lemma reach_excl_outside ol k progs s : reach_excl ol k progs s -> outside_idle s.
 Proof.
   induction 1 as [|s t R IH St E].
   - intros t _. cbn. eauto.
@@ -979,8 +995,8 @@ Fixpoint irun_excl (x : ist) (sch : list nat) : option ist :=
       end
   end.
 
-Lemma irun_excl_reach k progs sch : forall x x',
-  ireach_excl k progs x -> irun_excl x sch = Some x' -> ireach_excl k progs x'.
+Lemma irun_excl_reach ol k progs sch : forall x x',
+  ireach_excl ol k progs x -> irun_excl x sch = Some x' -> ireach_excl ol k progs x'.
 Proof.
   induction sch as [|t r IH]; intros x x' R H; cbn in H.
   - inversion H; subst. exact R.
@@ -990,21 +1006,21 @@ Proof.
     constructor; [exact R | exact St|].
     apply exclb_excl; [|exact Eb].
     rewrite istep_erase. apply outside_idle_step; [|exact St].
-    apply (reach_excl_outside k progs). apply ireach_excl_sound. exact R.
+    apply (reach_excl_outside ol k progs). apply ireach_excl_sound. exact R.
 Qed.
 
 (* the stranding run of MChanProofs (capacity 2, 3 senders, 2 receivers) *)
 Definition strand_istate : ist :=
-  match irun_excl (iinit 1 strand_progs) strand_sched with
+  match irun_excl (iinit true 1 strand_progs) strand_sched with
   | Some x => x
-  | None => iinit 1 strand_progs
+  | None => iinit true 1 strand_progs
   end.
 
-Lemma strand_irun : irun_excl (iinit 1 strand_progs) strand_sched = Some strand_istate.
+Lemma strand_irun : irun_excl (iinit true 1 strand_progs) strand_sched = Some strand_istate.
 Proof. vm_compute. reflexivity. Qed.
 
-Lemma strand_ireach_excl : ireach_excl 1 strand_progs strand_istate.
-Proof. apply (irun_excl_reach 1 strand_progs strand_sched (iinit 1 strand_progs)); [constructor | exact strand_irun]. Qed.
+Lemma strand_ireach_excl : ireach_excl true 1 strand_progs strand_istate.
+Proof. apply (irun_excl_reach true 1 strand_progs strand_sched (iinit true 1 strand_progs)); [constructor | exact strand_irun]. Qed.
 
 Lemma strand_logs :
   slog strand_istate = [101; 201; 102; 202] /\ rlog strand_istate = [101; 201; 102; 202].
@@ -1015,7 +1031,7 @@ Proof. vm_compute. split; reflexivity. Qed.
 Lemma strand_istate_base : base strand_istate = strand_state.
 Proof. vm_compute. reflexivity. Qed.
 
-Lemma strand_state_reach_excl : reach_excl 1 strand_progs strand_state /\ stranded strand_state.
+Lemma strand_state_reach_excl : reach_excl true 1 strand_progs strand_state /\ stranded strand_state.
 Proof.
   split; [|exact strand_stranded].
   rewrite <- strand_istate_base. apply ireach_excl_sound. exact strand_ireach_excl.
